@@ -54,8 +54,16 @@ DECIDE_RULE = ("behaviours = every store-tick-probe scenario of MC_decide (famil
                "(counted by TLC, one per distinct trace state)")
 
 PLANS = {}
+def decide_wb_models(tier):
+    # what a freshening 304 leaves behind (merged fields, Age, Date) only shows in the requests after it: family wb
+    return decide_models(tier) + [mc("MC_hist", "hist_wb", replay_cap={"quick": 2500, "thorough": 150000}, Defects="{}", Family=q("wb"),
+                                     Tier=q(tier), Export="TRUE")]
+
+
 for _p in ("C01", "C02", "C09", "C11", "C13"):
-    PLANS[_p] = Plan(_p, decide_models, extra=gen.random_decide, rule=DECIDE_RULE)
+    PLANS[_p] = Plan(_p, decide_wb_models, extra=(lambda tier, seed: gen.random_decide(tier, seed) + gen.client_conditionals(tier)) if _p == "C02" else gen.random_decide,
+                     rule=DECIDE_RULE + "; plus the MC_hist family wb (validation by 304 with / without Cache-Control, Age, Date, by a new "
+                                        "representation, in the foreground or background, then probes)")
 # only-if-cached also on requests the cache never answers from its store (other methods, Range): family "store"
 PLANS["C18"] = Plan("C18", lambda tier: decide_models(tier) + [mc("MC_store", "store", Defects="{}", Family=q("store"), Tier=q(tier), Export="TRUE",
                                                                     replay_cap={"quick": 1500, "thorough": 20000})],
@@ -138,7 +146,7 @@ def footprint_models(tier):
 def render_uri(u):
     path = "" if not u["path"] else "/" + "/".join(u["path"])
     q_ = "" if u["query"] == "NONE" else "?" + u["query"]
-    return (u["scheme"] + "://" + u["user"] + u["host"] + u["port"] + path + q_ + u["frag"]).replace("RAWE9", "\u00e9")
+    return (u["scheme"] + "://" + u["user"] + u["host"] + u["port"] + path + q_ + u["frag"]).replace("RAWE9", "\u00e9").replace("RAWFFFD", "\ufffd")
 
 
 def uri_models(tier):
@@ -147,6 +155,8 @@ def uri_models(tier):
 
 METHOD_SHAPES = [("GET", 0, "HEAD", 0), ("GET", 0, "GET", 1), ("GET", 0, "POST", 0), ("HEAD", 0, "GET", 0), ("POST", 0, "GET", 0),
                  ("GET", 1, "GET", 0), ("GET", 0, "PUT", 0), ("OPTIONS", 0, "GET", 0), ("GET", 0, "X-CUSTOM", 0), ("GET", 1, "GET", 1)]
+# request directives that make a cache prefer its store must not make it answer other methods / Range requests from it
+SHAPE_DIRECTIVES = [{}, {"fl": ["only-if-cached"]}, {"ms": gen.NOARG}, {"fl": ["only-if-cached"], "ms": 1000}]
 
 
 def uri_scenarios(rows, tier, seed):
@@ -165,20 +175,26 @@ def uri_scenarios(rows, tier, seed):
     a_ok = gen.ans(ccp=1, ma=100, etag=1)
     for i, x in enumerate(rows):
         ua, ub = render_uri(x["a"]), render_uri(x["b"])
+        ub_u = 0 if x["equiv"] else 1
         steps = [{"op": "req", "rq": gen.rq(u=0, url=ua), "ans": [a_ok]},
                  {"op": "tick", "d": 2},
-                 {"op": "req", "rq": gen.rq(u=0 if x["equiv"] else 1, url=ub, ugap=1 if x["gap"] else 0), "ans": [a_ok]}]
+                 {"op": "req", "rq": gen.rq(u=ub_u, url=ub, ugap=1 if x["gap"] else 0), "ans": [a_ok]}]
+        if not x["equiv"] and not x["gap"]:
+            # both are stored now: each must keep getting its own response
+            steps += [{"op": "tick", "d": 1}, {"op": "req", "rq": gen.rq(u=0, url=ua), "ans": [a_ok]},
+                      {"op": "req", "rq": gen.rq(u=1, url=ub), "ans": [a_ok]}]
         out.append({"id": "uri/%06d" % i, "backend": "fs" if i % 25 == 0 else "mem", "opt": {}, "steps": steps, "grp": "", "spv": 0,
                     "meta": {"a": ua, "b": ub, "equiv": x["equiv"]}})
     base = "http://example.com/a?q=a"
     for j, (m1, r1, m2, r2) in enumerate(METHOD_SHAPES):
         for k, (ua, ub, same) in enumerate([(base, base, True), (base, "HTTP://EXAMPLE.com:80/./a?q=%61", True), (base, "http://example.com/a?q=b", False)]):
-            steps = [{"op": "req", "rq": gen.rq(u=0, url=ua, m=m1, range=r1), "ans": [a_ok]},
-                     {"op": "tick", "d": 1},
-                     {"op": "req", "rq": gen.rq(u=0 if same else 1, url=ub, m=m2, range=r2), "ans": [a_ok]},
-                     {"op": "tick", "d": 1},
-                     {"op": "req", "rq": gen.rq(u=0, url=ua), "ans": [a_ok]}]
-            out.append({"id": "urim/%02d-%d" % (j, k), "backend": "mem", "opt": {}, "steps": steps, "grp": "", "spv": 0})
+            for dn, dirs in enumerate(SHAPE_DIRECTIVES):
+                steps = [{"op": "req", "rq": gen.rq(u=0, url=ua, m=m1, range=r1), "ans": [a_ok]},
+                         {"op": "tick", "d": 1},
+                         {"op": "req", "rq": gen.rq(u=0 if same else 1, url=ub, m=m2, range=r2, **dirs), "ans": [a_ok]},
+                         {"op": "tick", "d": 1},
+                         {"op": "req", "rq": gen.rq(u=0, url=ua), "ans": [a_ok]}]
+                out.append({"id": "urim/%02d-%d-%d" % (j, k, dn), "backend": "mem", "opt": {}, "steps": steps, "grp": "", "spv": 0})
     return out
 
 
@@ -519,7 +535,8 @@ def respell(steps, sp):
             continue
         st2 = dict(st)
         st2["rq"] = dict(st["rq"], sp=sp)
-        st2["ans"] = [dict(a, sp=sp) for a in st.get("ans", [])]
+        # the three HTTP-date formats mean the same, and so do a missing Date and one that cannot be parsed
+        st2["ans"] = [dict(a, sp=sp, dfmt=3 if (a.get("nodate") == 1 and sp % 2 == 1) else sp % 3) for a in st.get("ans", [])]
         out.append(st2)
     return out
 
@@ -530,7 +547,10 @@ def scenarios_from_rows(rows, tag, backend_of):
         sid = "%s/%06d" % (tag, i)
         if i % 3 == 2:  # behaviour depends on the meaning of the directives only: every third replay is re-spelled
             r = dict(r, steps=respell(r["steps"], 1 + (i // 3) % 6))
-        out.append({"id": sid, "backend": backend_of(i), "opt": r.get("opt", {}), "steps": r["steps"], "grp": "", "spv": 0})
+        opt = dict(r.get("opt", {}))
+        if i % 7 == 3:  # ... nor on the time zone the process happens to run in
+            opt["tz"] = [-5, 2, 13, -11][(i // 7) % 4]
+        out.append({"id": sid, "backend": backend_of(i), "opt": opt, "steps": r["steps"], "grp": "", "spv": 0})
     return out
 
 
